@@ -15,6 +15,12 @@ claimed = {
          "Bounds as C01; timeout far in the future so the time cause is excluded (C19 covers it)."),
  "C19": ("Reassembler harness with every time.Now() reading a symbolic non-decreasing instant: a stale head is flushed by the first call after expiry, nothing is flushed for time before expiry, Close flushes everything once, post-Close Maintain/Close fail and deliver nothing, no Reassembler without a Stream.",
          "Bounds: k<=2 (quick) / 3 (thorough) operations + Close; timeouts {-1s,0,5ms,2s,10^6h}; wall-clock-only instants; clock-dependent counterexamples are confirmed in the engine's concrete mode because the native clock cannot be forced."),
+ "C08": ("Each AuditClient command is run against a harness-side kernel whose reply script is chosen symbolically (unsolicited sequence-0 records, EINTR/EAGAIN failures, ACK with any errno<=4095, foreign sequence, wrong type, short payload, symbolic status/rule bytes); on every path: nil exactly when the script acknowledged this request with errno 0, otherwise an error that errors.Is the chosen errno; returned status/rules equal the bytes sent; retry boundary 9 vs 10 transient failures.",
+         "Bounds: one command (thorough: also pairs), <=1 (thorough 2) unsolicited records and transient failures per request, <=2 rules of 3 bytes; request numbers != 0; kernel simulated (no socket)."),
+ "C16": ("Setters x wait modes with full-range symbolic arguments: captured request decoded at UAPI offsets (type, flags, 44-byte payload, exactly one mask bit, value in its field, all else zero); exported constants against UAPI values; FromWireFormat for every buffer length 0..64 and 100 with symbolic contents.",
+         "UAPI numbers transcribed from /usr/include/linux/audit.h into the harness; kernel simulated. Known finding: LogOnFailure/PanicOnFailure constants (not repairable safely, see known_findings.txt)."),
+ "C17": ("Histories of NoWait/WaitForReply setters, WaitForPendingACKs, GetRules and Close against the simulated kernel with a single reused receive buffer and symbolic errno per request: each NoWait ACK consumed exactly once and in order, first kernel error returned, no re-waiting, Close closes once and clears the PID iff SetPID was used, returned rule data never changes later.",
+         "Bounds: histories of 3 (quick) / 4-5 (thorough) operations; domain: reply-waiting commands only when no NoWait ACK is outstanding; sequential Close only in this job."),
 }
 props=[json.loads(l)['id'] for l in open('/verif/properties.jsonl')]
 checks=[]
